@@ -24,6 +24,7 @@ type FuncResult struct {
 	Notes       []string
 	Err         string
 	HasContract bool
+	AbstractCon bool // the function's contract is assumed (abstractbody): its postconditions are not obligations
 	Refine      bool
 	GenTimeS    float64
 	ScriptLines int
@@ -53,7 +54,7 @@ func genFuncR(p *Program, w *World, fn *ssa.Function, con *Contract, excepts map
 	if w.ActiveVariant != "" {
 		e.FnName += "@" + w.ActiveVariant
 	}
-	res = &FuncResult{Fn: e.FnName, Key: funcKey(fn), HasContract: con != nil, Refine: ref != nil}
+	res = &FuncResult{Fn: e.FnName, Key: funcKey(fn), HasContract: con != nil, Refine: ref != nil, AbstractCon: con != nil && con.Abstract && ref == nil}
 	defer func() {
 		res.GenTimeS = time.Since(start).Seconds()
 		if r := recover(); r != nil {
